@@ -59,7 +59,7 @@ ASSUMPTIONS = [
     "the chi-square variance; alarm only at p < 1e-9, or for a cell with expected count >= 30 that is never hit",
     "a RejectionException is a rejected scene: the law is judged conditionally on acceptance",
     "GridRegion is only a sampled operand (intersect, left side of difference): its containsPoint has documented nearest-cell "
-    "semantics that differ from its sampler",
+    "semantics that differ from its sampler; of the grid's own containsPoint only 'accepts every point the grid's sampler draws' is required",
     "VoxelRegion is defined by its voxel centres + pitch (construction data); view regions and pruned regions are not generated",
     "compositions the library cannot build or sample (NotImplementedError, missing circumcircle, undefined sampling, "
     "ZeroDivisionError / RecursionError inside the library) are counted as refused, not judged",
@@ -221,7 +221,10 @@ def make_leaf(t, kind, near, tag):
         ny, nx = 2 + t.draw(3, tag + "ny"), 2 + t.draw(3, tag + "nx")
         mask = t.draw(1 << (nx * ny), tag + "mask") & ~1
         grid = [[mask >> (y * nx + x) & 1 for x in range(nx)] for y in range(ny)]
-        ax, ay, bx, by = 0.4 * size, 0.3 * size + 0.1, c[0] - 0.5 * size, c[1] - 0.5 * size
+        # clearly non-square cells, taller or wider by the parity of the mask (no extra tape draw): a mix-up of the two
+        # pitches must move an index by at least one cell within the 2..4 rows / columns
+        ax, ay = (0.4 * size, 0.22 * size + 0.03) if mask & 2 else (0.22 * size + 0.03, 0.4 * size)
+        bx, by = c[0] - 0.5 * size, c[1] - 0.5 * size
         reg = R.GridRegion("grid", grid, ax, ay, bx, by)
         pts = [(ax * x + bx, ay * y + by, 0.0) for y in range(ny) for x in range(nx) if not grid[y][x]]
         ref = rr.PtsRef(pts, "grid", {"kind": "GridRegion", "grid": grid, "Ax": ax, "Ay": ay, "Bx": bx, "By": by})
@@ -538,6 +541,15 @@ def run(tape):
                 for v in violations:
                     v["detail"].update(finding=fkey, observations_consistent_with_model=mref.desc)
                 break
+        grid = reg if isinstance(reg, R.GridRegion) else A.reg if op in ("intersect", "difference") else None
+        if isinstance(grid, R.GridRegion) and len(P):
+            # a point drawn from the grid (or from grid ∩ B / grid - B) is an exact free-cell centre, so the grid's own
+            # nearest-cell containsPoint must accept it
+            own = [p for p in np.concatenate([P, S]) if not grid.containsPoint(tuple(float(x) for x in p))]
+            stats["judged:grid-self-containment"] = 1
+            if own:
+                violations.append({"clause": "membership-own-containsPoint", "detail": dict(
+                    info, point=[float(x) for x in own[0]], n_bad=len(own), n=len(P) + len(S), finding=None)})
     except StopIteration:
         pass
     except (NotImplementedError, R.UndefinedSamplingException, AttributeError, TypeError, ValueError, ZeroDivisionError, RecursionError) as e:
